@@ -195,4 +195,8 @@ def idft2(F, alpha, shape=None, shift=(0,0), unitary=True, out=None):
     # will allocate memory for F if out == None
     F = dft2(np.conj(F), alpha, shape, shift, unitary=unitary, out=out)
     np.conj(F, out=F)
+    if unitary:
+        # the unitary scaling applied by dft2 already makes the transform
+        # pair energy conserving
+        return F
     return np.divide(F, N, out=F)
